@@ -524,3 +524,70 @@ func SV_C06_failed_olvm_leaves_no_trace() {
 	sv.Observe("code3", r3.Code)
 	sv.Cover(r3.Code == 0, "third-executed")
 }
+
+// SV_C05_olvm_nonce: an executed OLVM transaction cannot be executed again,
+// whatever happens to the sender's balance in between and in whatever byte
+// encoding it comes back (OLVM transactions carry a nonce).
+//
+// sv:bounds sender A (account nonce 0 or 1) sends an OLVM transfer to B with arbitrary amount, gas limit and price (admitted and executed, so it may spend exactly everything A has); the block is committed and indexed; A then receives an arbitrary native amount; the same signed transaction returns byte-identical or re-encoded (insignificant whitespace)
+// sv:outside contract targets; other re-encodings
+// sv:goal the resubmission is refused by the mempool check and, delivered in a block, changes no ledger cell and no nonce
+func SV_C05_olvm_nonce() {
+	svCurrencyLimit = 1
+	svUseEthParties()
+	pre := &svOLVMPre{}
+	e := svNewEnv(2, 2, func(e *svEnv) {
+		ctx := &e.app.Context
+		ctx.stateDB.SetBlockHash(ethcmn.BytesToHash([]byte{1}))
+		pre.nonce0 = uint64(sv.Choice("olvm.senderNonce", 2))
+		if pre.nonce0 > 0 {
+			k := ctx.accountKeeper.WithState(ctx.deliver)
+			acc, err := k.NewAccountWithAddress(svParty_(0).Addr)
+			if err != nil {
+				sv.Unreachable("keeper account")
+			}
+			acc.Sequence = pre.nonce0
+			if err := k.SetAccount(*acc); err != nil {
+				sv.Unreachable("keeper set")
+			}
+		}
+	})
+	x := svInstallIndexer()
+	sv.Assume(e.ledger().get("b:A:OLT").Cmp(svTwo128) < 0 && e.ledger().get("b:B:OLT").Cmp(svTwo128) < 0)
+	to := svParty_(1).Addr
+	msg := &olvm.Transaction{Nonce: pre.nonce0, From: svParty_(0).Addr, To: &to,
+		Amount:  action.Amount{Currency: "OLT", Value: *balance.NewAmountFromBigInt(sv.BigInt("amount.value"))},
+		ChainID: utils.HashToBigInt(svHeader(0).ChainID)}
+	raw := svRaw(action.OLVM, msg)
+	raw.Memo = strconv.FormatUint(pre.nonce0, 10)
+	tx := svSignOLVM(raw, 0)
+	sv.Assume(e.validate(tx))
+	bytes1 := svEncode(tx)
+	res := e.app.txDeliverer()(RequestDeliverTx{Tx: bytes1})
+	sv.Assume(res.Code == 0)
+	svIndexTx(x, 2, bytes1, res)
+	e.app.Context.stateDB.Reset() // block end
+	svCommitBlock(e.app)
+	svOpenBlock(e.app, 3)
+	// the sender is funded again
+	refill := svOLVMBalance("refill")
+	svFundOLT(e.app, svParty_(0).Addr, refill)
+	bytes2 := bytes1
+	if sv.Choice("reencoded", 2) == 1 {
+		bytes2 = sv.Reencode(bytes1)
+	}
+	l0, n0 := e.ledger(), e.nonceOf(svParty_(0).Addr)
+	chk := e.app.txChecker()(RequestCheckTx{Tx: bytes2})
+	sv.Assert(chk.Code != 0, "executed-olvm-transaction-refused-by-mempool")
+	res2 := e.app.txDeliverer()(RequestDeliverTx{Tx: bytes2})
+	l1, n1 := e.ledger(), e.nonceOf(svParty_(0).Addr)
+	same := n0 == n1
+	for k, c := range l1.cells {
+		if c.V.Cmp(l0.cells[k].V) != 0 {
+			same = false
+		}
+	}
+	sv.Assert(res2.Code != 0 || same, "executed-olvm-transaction-changes-nothing-when-delivered-again")
+	sv.Observe("code2", res2.Code)
+	sv.Cover(true, "replayed")
+}
